@@ -234,13 +234,18 @@ def gen_linear(draw):
     bias = draw(st.booleans())
     if bias:
         xs.append(X([fout], draw(gen.grid([fout], -16, 16))))
-    return {"xs": xs, "args": {"form": form, "bias": bias}}
+    return {"xs": xs, "args": {"form": form, "bias": bias, "neuron": draw(st.booleans())}}
 
 
 def apply_linear(ts, args):
     b = ts[2] if args["bias"] else None
     if args["form"] == "module":
-        m = nn.Linear(ts[1].shape[1], ts[1].shape[0], bias=args["bias"])
+        if ts[1].shape[0] == 1 and args.get("neuron"):
+            m = nn.Neuron(ts[1].shape[1], bias=args["bias"])
+            if (m.bias is None) != (not args["bias"]):
+                raise AssertionError("Neuron(bias=...) does not match the requested bias setting")
+        else:
+            m = nn.Linear(ts[1].shape[1], ts[1].shape[0], bias=args["bias"])
         m.weight = ts[1]
         if args["bias"]:
             m.bias = b
@@ -485,7 +490,7 @@ def gen_batch_norm(draw):
         xs.append(X([C], draw(gen.grid([C], -16, 16))))
     args = {"form": form, "training": training, "stats": stats, "has_w": has_w, "has_b": has_b,
             "eps": draw(st.sampled_from([1e-5, 1e-3, 0.1])),
-            "momentum": draw(st.sampled_from([0.1, 0.5, 1.0, 0.01]))}
+            "momentum": draw(st.sampled_from([0.1, 0.5, 1.0, 0.01, 0.0]))}
     args["offset"] = [draw(st.sampled_from([0, 0, 0, 1, -1])) for _ in range(C)]
     # another (training-mode) call on the same layer / buffers between this call and its backward
     args["interleave"] = draw(st.sampled_from([False, False, True]))
